@@ -13,6 +13,7 @@ import (
 	"math/rand"
 	"net"
 	"runtime"
+	"slices"
 	"strings"
 	"sync"
 	"time"
@@ -26,18 +27,38 @@ var ssC = ssrpc.ClientStates
 var ssS = ssrpc.ServerStates
 
 type Case struct {
-	Shallow bool
-	Ops     []string // loc:<add|rem>:<s> cli:<add|rem>:<s> hold (park the next reply) release wait drift cut
-	Seed    int64
-	Tag     string
+	Shallow  bool
+	NoSchema bool
+	Allowed  bool     // AllowedStates A,B,C (D and Exception are not synchronised)
+	Skipped  bool     // SkippedStates D
+	SyncMut  bool     // SyncMutations (per-mutation clock updates)
+	SlowPush bool     // push interval far beyond the scenario: only mutation replies carry diffs
+	Pre      []string // add:<s> / rem:<s> applied to the source before the client connects
+	Ops      []string // loc:<add|rem>:<s> cli:<add|rem>:<s> hold (park the next reply) release wait drift
+	Seed     int64
+	Tag      string
+}
+
+func b2i(b bool) int {
+	if b {
+		return 1
+	}
+	return 0
+}
+
+// messageLevel: the scenario is compared with the Lean model step by step (deep clocks over the
+// whole state list); the other configurations are judged by the monitors.
+func (c Case) messageLevel() bool {
+	return !c.Shallow && !c.NoSchema && !c.Allowed && !c.Skipped && !c.SyncMut
 }
 
 func (c Case) Lines() []string {
-	b := 0
-	if c.Shallow {
-		b = 1
+	l := []string{fmt.Sprintf("conv-case shallow=%d seed=%d noschema=%d allowed=%d skipped=%d syncmut=%d slowpush=%d",
+		b2i(c.Shallow), c.Seed, b2i(c.NoSchema), b2i(c.Allowed), b2i(c.Skipped), b2i(c.SyncMut), b2i(c.SlowPush))}
+	if len(c.Pre) > 0 {
+		l = append(l, "pre "+strings.Join(c.Pre, " "))
 	}
-	return []string{fmt.Sprintf("conv-case shallow=%d seed=%d", b, c.Seed), "ops " + strings.Join(c.Ops, " ")}
+	return append(l, "ops "+strings.Join(c.Ops, " "))
 }
 
 func ParseCase(lines []string) (Case, error) {
@@ -50,9 +71,30 @@ func ParseCase(lines []string) (Case, error) {
 		t := strings.Fields(l)
 		switch t[0] {
 		case "conv-case":
-			sh := 0
-			fmt.Sscanf(l, "conv-case shallow=%d seed=%d", &sh, &c.Seed)
-			c.Shallow = sh == 1
+			for _, f := range t[1:] {
+				kv := strings.SplitN(f, "=", 2)
+				if len(kv) != 2 {
+					continue
+				}
+				switch kv[0] {
+				case "seed":
+					fmt.Sscan(kv[1], &c.Seed)
+				case "shallow":
+					c.Shallow = kv[1] == "1"
+				case "noschema":
+					c.NoSchema = kv[1] == "1"
+				case "allowed":
+					c.Allowed = kv[1] == "1"
+				case "skipped":
+					c.Skipped = kv[1] == "1"
+				case "syncmut":
+					c.SyncMut = kv[1] == "1"
+				case "slowpush":
+					c.SlowPush = kv[1] == "1"
+				}
+			}
+		case "pre":
+			c.Pre = t[1:]
 		case "ops":
 			c.Ops = t[1:]
 		}
@@ -71,6 +113,7 @@ type Run struct {
 	Pushes    int
 	Replies   int
 	Syncs     int
+	CliMuts   int
 	SyncDrops int
 	Reorders  int
 }
@@ -99,7 +142,9 @@ type harness struct {
 	pendingSync int
 	// the snapshot the server last produced a diff for
 	lastProduced string
-	shallow      bool
+	shallow      bool // no message-level comparison (see Case.messageLevel)
+	txCount      int  // transitions the source has finished
+	txAccepted   bool // the last of them was accepted
 	syncOut      bool // a full sync has been executed by the server and not applied by the client yet
 }
 
@@ -110,10 +155,14 @@ type srcTracer struct {
 
 // bound before the rpc server's own tracer: the change is recorded before the push it causes
 func (t *srcTracer) TransitionEnd(tx *am.Transition) {
+	h := t.h
+	h.mu.Lock()
+	h.txCount++
+	h.txAccepted = tx.IsAccepted.Load()
+	h.mu.Unlock()
 	if snapKey(tx.TimeBefore) == snapKey(tx.TimeAfter) {
 		return
 	}
-	h := t.h
 	h.mu.Lock()
 	if !h.quiet {
 		k := snapKey(tx.TimeAfter)
@@ -330,7 +379,36 @@ func Exec(c Case) *Run {
 		run.Err = err.Error()
 		return run
 	}
-	h := &harness{run: run, src: src, parked: make(chan struct{}, 1), quiet: true, shallow: c.Shallow}
+	st := func(s string) string {
+		if len(s) > 0 {
+			return strings.ToUpper(s[:1])
+		}
+		return "A"
+	}
+	// the source has a history before anybody connects
+	for _, op := range c.Pre {
+		p := strings.Split(op, ":")
+		if len(p) < 2 {
+			continue
+		}
+		if p[0] == "add" {
+			src.Add1(st(p[1]), nil)
+		} else {
+			src.Remove1(st(p[1]), nil)
+		}
+	}
+	// the states the client synchronises
+	tracked := append(am.S{}, names...)
+	copts := &arpc.ClientOpts{SyncShallowClocks: c.Shallow, NoSchema: c.NoSchema, SyncMutations: c.SyncMut}
+	if c.Allowed {
+		copts.AllowedStates = am.S{"A", "B", "C"}
+		tracked = am.S{"A", "B", "C"}
+	}
+	if c.Skipped {
+		copts.SkippedStates = am.S{"D"}
+		tracked = slices.DeleteFunc(tracked, func(n string) bool { return n == "D" })
+	}
+	h := &harness{run: run, src: src, parked: make(chan struct{}, 1), quiet: true, shallow: !c.messageLevel()}
 	src.BindTracer(&srcTracer{TracerNoOp: &am.TracerNoOp{Id: "verif-src"}, h: h})
 	l, err := net.Listen("tcp4", "127.0.0.1:0")
 	if err != nil {
@@ -345,8 +423,11 @@ func Exec(c Case) *Run {
 	}
 	srv.Listener.Store(&l)
 	iv := 3 * time.Millisecond
+	if c.SlowPush {
+		iv = 10 * time.Minute
+	}
 	srv.PushInterval.Store(&iv)
-	cli, err := arpc.NewClient(ctx, addr, fmt.Sprintf("c%d", c.Seed%1000000), src.Schema(), &arpc.ClientOpts{SyncShallowClocks: c.Shallow})
+	cli, err := arpc.NewClient(ctx, addr, fmt.Sprintf("c%d", c.Seed%1000000), src.Schema(), copts)
 	if err != nil {
 		run.Err = err.Error()
 		return run
@@ -399,12 +480,6 @@ func Exec(c Case) *Run {
 		}
 	}
 	var cliWG sync.WaitGroup
-	st := func(s string) string {
-		if len(s) > 0 {
-			return strings.ToUpper(s[:1])
-		}
-		return "A"
-	}
 	for _, op := range c.Ops {
 		p := strings.Split(op, ":")
 		switch p[0] {
@@ -431,12 +506,16 @@ func Exec(c Case) *Run {
 				h.mu.Lock()
 			}
 			h.mu.Unlock()
-			doit := func() {
+			name := st(p[2])
+			if !slices.Contains(tracked, name) {
+				// a mutation of a state the client does not know is a usage error, not a protocol input
+				continue
+			}
+			doit := func() am.Result {
 				if p[1] == "add" {
-					nm.Add1(st(p[2]), nil)
-				} else {
-					nm.Remove1(st(p[2]), nil)
+					return nm.Add1(name, nil)
 				}
+				return nm.Remove1(name, nil)
 			}
 			if hold {
 				cliWG.Add(1)
@@ -446,7 +525,35 @@ func Exec(c Case) *Run {
 				case <-time.After(2 * time.Second):
 				}
 			} else {
-				doit()
+				h.mu.Lock()
+				n0 := h.txCount
+				h.mu.Unlock()
+				res := doit()
+				h.mu.Lock()
+				n1, acc := h.txCount, h.txAccepted
+				h.mu.Unlock()
+				run.CliMuts++
+				// the result is the one the source produced (nothing else mutates the source meanwhile)
+				if n1 == n0+1 {
+					want := am.Canceled
+					if acc {
+						want = am.Executed
+					}
+					if res != want {
+						run.Failures = append(run.Failures, fmt.Sprintf("the mutation %s %s made through the network machine returned %s, the source produced %s", p[1], name, res, want))
+					}
+				}
+				// its effect is already visible locally when the call returns
+				if n1 > n0 {
+					st, mt := src.Tick(name), nm.Tick(name)
+					vis := st == mt
+					if c.Shallow {
+						vis = st%2 == mt%2
+					}
+					if !vis || src.Is1(name) != nm.Is1(name) {
+						run.Failures = append(run.Failures, fmt.Sprintf("visibility: when %s %s made through the network machine returned, the source had %s at tick %d (active=%v) and the network machine at tick %d (active=%v)", p[1], name, name, st, src.Is1(name), mt, nm.Is1(name)))
+					}
+				}
 			}
 		case "hold":
 			h.mu.Lock()
@@ -467,10 +574,24 @@ func Exec(c Case) *Run {
 			settle()
 		case "drift":
 			// the client's copy is off by a tick on one state
+			// nothing in flight: what the next diff will be computed against is the server's lastPush
+			settle()
 			t := nm.Time(nil)
 			if len(t) > 0 {
 				t2 := append(am.Time{}, t...)
-				t2[0] += 2
+				// the checksum is a sum over time, queue tick and machine tick: the injected error must
+				// not cancel a queue-tick lag the copy may already have (no-op mutations of the source
+				// move its queue tick without a diff being applied)
+				lpSum, lpQ := arpc.VerifLastPush(srv)
+				var sum uint64
+				for _, v := range t {
+					sum += v
+				}
+				d := uint64(2)
+				if uint8(sum+d+nm.QueueTick()) == uint8(lpSum+lpQ) {
+					d = 4
+				}
+				t2[0] += d
 				arpc.VerifSetClientMirror(cli, t2, nm.QueueTick(), nm.MachineTick())
 				h.mu.Lock()
 				run.Lines = append(run.Lines, "conv drift")
@@ -508,22 +629,26 @@ func Exec(c Case) *Run {
 	if neverSynced > 0 {
 		run.Failures = append(run.Failures, "a diff was rejected by the client (clock drift detected) but no full sync followed")
 	}
+	_, _ = srcT, mirT
 	if left == 0 {
-		same := len(srcT) == len(mirT)
-		for i := range srcT {
+		for _, n := range tracked {
+			if c.NoSchema && n == am.StateException && !nm.Has1(n) {
+				continue
+			}
+			st, mt := src.Tick(n), nm.Tick(n)
+			same := st == mt
+			if c.Shallow {
+				same = st%2 == mt%2
+			}
 			if !same {
+				run.Failures = append(run.Failures, fmt.Sprintf("the source stopped changing and nothing is in flight, yet state %s has tick %d on the network machine and %d on the source (network machine %v, source %v, shallow=%v)", n, mt, st, nm.Time(nil), src.Time(nil), c.Shallow))
 				break
 			}
-			if c.Shallow {
-				same = srcT[i]%2 == mirT[i]%2
-			} else {
-				same = srcT[i] == mirT[i]
+		}
+		for i, n := range tracked {
+			if c.NoSchema && n == am.StateException && !nm.Has1(n) {
+				continue
 			}
-		}
-		if !same {
-			run.Failures = append(run.Failures, fmt.Sprintf("the source stopped changing and nothing is in flight, yet the network machine has %v and the source %v (shallow=%v)", mirT, srcT, c.Shallow))
-		}
-		for i, n := range names {
 			if src.Is1(n) != nm.Is1(n) {
 				run.Failures = append(run.Failures, fmt.Sprintf("at quiescence state %s (index %d) is active=%v on the source and %v on the network machine", n, i, src.Is1(n), nm.Is1(n)))
 				break
@@ -537,8 +662,54 @@ func Exec(c Case) *Run {
 }
 
 func GenCase(r *rand.Rand) Case {
-	c := Case{Seed: r.Int63n(1 << 40), Shallow: r.Intn(4) == 0}
+	c := Case{Seed: r.Int63n(1 << 40)}
+	// half of the scenarios run the default configuration (compared with the model message by
+	// message), the others draw from the sync configurations
+	if r.Intn(2) == 0 {
+		switch r.Intn(6) {
+		case 0, 1:
+			c.Shallow = true
+		case 2:
+			c.NoSchema = true
+		case 3:
+			c.Allowed = true
+		case 4:
+			c.Skipped = true
+		case 5:
+			c.Shallow = true
+			c.Allowed = r.Intn(2) == 0
+			c.NoSchema = !c.Allowed
+		}
+	}
 	states := []string{"a", "b", "c", "d"}
+	if r.Intn(6) == 0 {
+		// no ticker pushes inside the scenario: the replies carry everything; the last operation is a
+		// mutation made through the network machine, whose reply brings the mirror up to date
+		c.SlowPush = true
+		for i, k := 0, r.Intn(8); i < k; i++ {
+			c.Pre = append(c.Pre, []string{"add:", "add:", "rem:"}[r.Intn(3)]+states[r.Intn(4)])
+		}
+		for i, k := 0, 2+r.Intn(8); i < k; i++ {
+			op := []string{"loc:", "cli:", "cli:"}[r.Intn(3)]
+			c.Ops = append(c.Ops, op+[]string{"add:", "add:", "rem:"}[r.Intn(3)]+states[r.Intn(4)])
+		}
+		tr := states
+		if c.Allowed {
+			tr = states[:3]
+		} else if c.Skipped {
+			tr = states[:3]
+		}
+		c.Ops = append(c.Ops, "cli:"+[]string{"add:", "rem:"}[r.Intn(2)]+tr[r.Intn(len(tr))], "wait")
+		c.Tag = "slowpush"
+		return c
+	}
+	// a source with a past: ticks beyond 0/1 at handshake time
+	if r.Intn(3) == 0 {
+		for i, k := 0, r.Intn(8); i < k; i++ {
+			s := states[r.Intn(4)]
+			c.Pre = append(c.Pre, []string{"add:", "add:", "rem:"}[r.Intn(3)]+s)
+		}
+	}
 	n := 4 + r.Intn(10)
 	held := false
 	for i := 0; i < n; i++ {
